@@ -42,13 +42,16 @@ Fixpoint feature_ok (f : feature) : bool :=
   match f with Feature i rs => info_ok i
     && forallb (fun r => match r with Relation _ _ cs => negb (Nat.eqb (List.length cs) 0) && forallb feature_ok cs end) rs end.
 
-(* constraints: shape-correct trees; terms are references (name_ok; dotted references are NOT
-   allowed here), string literals ('...'), integers, plain floats; no XOR; aggregates over
-   references.  [ctc_ok] is the brief's predicate, restructured (see [ctc_ok_brief] below, proved
-   equal). *)
-Definition term_ok (s : string) : bool := name_ok s || starts_with_char "'" s.
+(* constraints: shape-correct trees; terms are references, string literals ('...'), integers, plain
+   floats; no XOR; aggregates over references.  A reference is a QUALIFIED name: one or more
+   '.'-separated parts ("Disk.size in GB"), each of them [name_ok] (in particular not empty: "",
+   "a.", ".a", "a..b" are excluded; [str_split] is Python's split, it never returns []).  Feature and
+   attribute names declared in the tree keep the plain [name_ok].  [ctc_ok] is the brief's predicate,
+   restructured (see [ctc_ok_brief] below, proved equal). *)
+Definition qname_ok (s : string) : bool := forallb name_ok (str_split "." s).
+Definition term_ok (s : string) : bool := qname_ok s || starts_with_char "'" s.
 Definition is_ref (n : node) : bool :=
-  match n with Node (DStr a) None None => name_ok a | _ => false end.
+  match n with Node (DStr a) None None => qname_ok a | _ => false end.
 Fixpoint ctc_ok (n : node) : bool :=
   match n with
   | Node (DStr s) None None => term_ok s
@@ -64,14 +67,14 @@ Fixpoint ctc_ok (n : node) : bool :=
 
 Fixpoint ctc_ok_brief (n : node) : bool :=
   match n with
-  | Node (DStr s) None None => name_ok s || starts_with_char "'" s
+  | Node (DStr s) None None => qname_ok s || starts_with_char "'" s
   | Node (DInt _) None None => true
   | Node (DFloat r) None None => match float_text r with Some t => String.eqb t r | None => false end
   | Node (DOp NOT) (Some a) None => ctc_ok_brief a
-  | Node (DOp o) (Some (Node (DStr a) None None)) None => op_in o [SUM; AVG; LEN; FLOOR; CEIL] && name_ok a
+  | Node (DOp o) (Some (Node (DStr a) None None)) None => op_in o [SUM; AVG; LEN; FLOOR; CEIL] && qname_ok a
   | Node (DOp o) (Some (Node (DStr a) None None)) (Some (Node (DStr b) None None)) =>
-      if op_in o [SUM; AVG] then name_ok a && name_ok b
-      else negb (op_in o [NOT; XOR; LEN; FLOOR; CEIL]) && (name_ok a || starts_with_char "'" a) && (name_ok b || starts_with_char "'" b)
+      if op_in o [SUM; AVG] then qname_ok a && qname_ok b
+      else negb (op_in o [NOT; XOR; LEN; FLOOR; CEIL]) && (qname_ok a || starts_with_char "'" a) && (qname_ok b || starts_with_char "'" b)
   | Node (DOp o) (Some a) (Some b) => negb (op_in o [NOT; XOR; SUM; AVG; LEN; FLOOR; CEIL]) && ctc_ok_brief a && ctc_ok_brief b
   | _ => false
   end.
@@ -136,7 +139,13 @@ Definition ex_model : fm :=
          {| c_name := "s"; c_ast := bin EQUALS (term "D2") (term "'abc'") |};
          {| c_name := "g"; c_ast := bin LOWER (bin SUM (term "cost") (term "Root")) (un LEN (term "D2")) |};
          {| c_name := "h"; c_ast := bin NOT_EQUALS (un AVG (term "cost")) (bin DIV (un FLOOR (term "A")) (un CEIL (term "A"))) |};
-         {| c_name := "o"; c_ast := bin OR (un NOT (bin IMPLIES (term "A") (term "B"))) (term "Z") |} ] |}.
+         {| c_name := "o"; c_ast := bin OR (un NOT (bin IMPLIES (term "A") (term "B"))) (term "Z") |};
+         (* qualified references feature.attribute; parts that need quotes (blank, leading digit, keyword) *)
+         {| c_name := "q1"; c_ast := bin GREATER (term "Disk.size in GB") (Node (DInt 3) None None) |};
+         {| c_name := "q2"; c_ast := bin EQUALS (term "features.1st") (term "'lit'") |};
+         {| c_name := "q3"; c_ast := bin LOWER_EQUALS (bin AVG (term "Root.my attr") (term "A.or"))
+                                                      (un SUM (term "D2.x.y z")) |};
+         {| c_name := "q4"; c_ast := bin EXCLUDES (term "Root.cost") (un LEN (term "C 2.n")) |} ] |}.
 
 
 (* ------------------------------------------------------------------ strings *)
@@ -224,6 +233,186 @@ Proof.
   unfold uvl_safename. rewrite Hd. apply strip_safe_simple. exact Hq.
 Qed.
 
+(* ---- qualified names: split / join / contains / remove *)
+Lemma contains_cons c d s :
+  str_contains_char c (String d s) = Ascii.eqb c d || str_contains_char c s.
+Proof. reflexivity. Qed.
+
+Lemma contains_app c : forall a b,
+  str_contains_char c (a ++ b) = str_contains_char c a || str_contains_char c b.
+Proof.
+  unfold str_contains_char. induction a as [|d a IH]; intros b; [reflexivity|].
+  cbn [append str_existsb]. rewrite IH, orb_assoc. reflexivity.
+Qed.
+
+Lemma str_split_aux_eq c d s cur :
+  str_split_aux c (String d s) cur =
+  if Ascii.eqb c d then str_rev cur :: str_split_aux c s "" else str_split_aux c s (String d cur).
+Proof. reflexivity. Qed.
+
+Lemma str_split_aux_nonnil c : forall s cur, str_split_aux c s cur <> [].
+Proof.
+  induction s as [|d s IH]; intros cur; [discriminate|].
+  rewrite str_split_aux_eq. destruct (Ascii.eqb c d); [discriminate|apply IH].
+Qed.
+
+Lemma str_join_cons2 sep x y l : str_join sep (x :: y :: l) = (x ++ sep ++ str_join sep (y :: l))%string.
+Proof. reflexivity. Qed.
+
+Lemma str_join_cons_nonnil sep x l : l <> [] -> str_join sep (x :: l) = (x ++ sep ++ str_join sep l)%string.
+Proof. destruct l as [|y l]; [intros H; elim H; reflexivity|intros _; apply str_join_cons2]. Qed.
+
+(* Python: c.join(s.split(c)) == s *)
+Lemma str_join_split_aux c : forall s cur,
+  str_join (String c "") (str_split_aux c s cur) = (str_rev cur ++ s)%string.
+Proof.
+  induction s as [|d s IH]; intros cur.
+  - cbn [str_split_aux str_join]. rewrite str_app_nil_r. reflexivity.
+  - rewrite str_split_aux_eq. destruct (Ascii.eqb_spec c d) as [<-|Hcd].
+    + rewrite (str_join_cons_nonnil _ _ _ (str_split_aux_nonnil c s "")), IH. reflexivity.
+    + rewrite IH, str_rev_cons, str_app_assoc. reflexivity.
+Qed.
+
+Lemma str_join_split c s : str_join (String c "") (str_split c s) = s.
+Proof. unfold str_split. apply (str_join_split_aux c s ""). Qed.
+
+(* a string without the separator is its own single part *)
+Lemma str_split_aux_absent c : forall s cur, str_contains_char c s = false ->
+  str_split_aux c s cur = [(str_rev cur ++ s)%string].
+Proof.
+  induction s as [|d s IH]; intros cur H.
+  - cbn [str_split_aux]. rewrite str_app_nil_r. reflexivity.
+  - rewrite contains_cons in H. apply orb_false_iff in H. destruct H as [H1 H2].
+    rewrite str_split_aux_eq, H1, (IH _ H2), str_rev_cons, str_app_assoc. reflexivity.
+Qed.
+
+Lemma str_split_absent c s : str_contains_char c s = false -> str_split c s = [s].
+Proof. intros H. unfold str_split. rewrite (str_split_aux_absent c s "" H). reflexivity. Qed.
+
+(* the parts never contain the separator *)
+Lemma str_split_aux_parts c : forall s cur, str_contains_char c (str_rev cur) = false ->
+  Forall (fun p => str_contains_char c p = false) (str_split_aux c s cur).
+Proof.
+  induction s as [|d s IH]; intros cur H.
+  - constructor; [exact H|constructor].
+  - rewrite str_split_aux_eq. destruct (Ascii.eqb c d) eqn:Hcd.
+    + constructor; [exact H|]. apply IH. reflexivity.
+    + apply IH. rewrite str_rev_cons, contains_app, H, contains_cons, Hcd. reflexivity.
+Qed.
+
+Lemma str_split_parts c s : Forall (fun p => str_contains_char c p = false) (str_split c s).
+Proof. apply str_split_aux_parts. reflexivity. Qed.
+
+(* removing a character commutes with joining, when the separator does not contain it *)
+Lemma remove_char_join q sep : str_remove_char q sep = sep -> forall l,
+  str_remove_char q (str_join sep l) = str_join sep (map (str_remove_char q) l).
+Proof.
+  intros Hsep. induction l as [|x l IH]; [reflexivity|].
+  destruct l as [|y l]; [reflexivity|].
+  cbn [map]. rewrite !str_join_cons2, !remove_char_app, Hsep.
+  cbn [map] in IH. rewrite IH. reflexivity.
+Qed.
+
+(* a join without the character: no part has it *)
+Lemma join_absent_parts q sep : forall l, str_contains_char q (str_join sep l) = false ->
+  Forall (fun p => str_contains_char q p = false) l.
+Proof.
+  induction l as [|x l IH]; intros H; [constructor|].
+  destruct l as [|y l].
+  - constructor; [exact H|constructor].
+  - rewrite str_join_cons2, !contains_app in H.
+    apply orb_false_iff in H. destruct H as [Hx H]. apply orb_false_iff in H. destruct H as [_ H].
+    constructor; [exact Hx|]. apply IH. exact H.
+Qed.
+
+(* the writer's quoting of the parts of a qualified name is undone by the reader *)
+Lemma strip_join_safe : forall l, Forall (fun p => str_contains_char """" p = false) l ->
+  strip_quotes (str_join "." (map uvl_safe_simple_name l)) = str_join "." l.
+Proof.
+  intros l H. unfold strip_quotes at 1. rewrite (remove_char_join """" "." eq_refl), map_map.
+  f_equal. induction H as [|p l Hp _ IH]; [reflexivity|].
+  cbn [map]. rewrite IH. f_equal. apply (strip_safe_simple p Hp).
+Qed.
+
+(* the general fact: ANY name without a double quote survives writing and reading, in the model
+   (empty parts included: "a..b" is written a."".b) — [qname_ok] is stricter only because the
+   grammar has no empty identifier *)
+Lemma strip_quotes_safename_noquote s : str_contains_char """" s = false ->
+  strip_quotes (uvl_safename s) = s.
+Proof.
+  intros H. unfold uvl_safename. destruct (str_contains_char "." s).
+  - rewrite strip_join_safe; [apply (str_join_split "." s)|].
+    apply (join_absent_parts """" "."). rewrite (str_join_split "." s). exact H.
+  - apply strip_safe_simple. exact H.
+Qed.
+
+Lemma forallb_name_ok_noquote : forall l, forallb name_ok l = true ->
+  Forall (fun p => str_contains_char """" p = false) l.
+Proof.
+  induction l as [|p l IH]; intros H; [constructor|].
+  cbn [forallb] in H. apply andb_true_iff in H. destruct H as [Hp Hl].
+  constructor; [|apply IH; exact Hl]. destruct (name_ok_parts p Hp) as (_ & Hq & _). exact Hq.
+Qed.
+
+Lemma qname_ok_noquote s : qname_ok s = true -> str_contains_char """" s = false.
+Proof.
+  unfold qname_ok. intros H. rewrite <- (str_join_split "." s) at 1.
+  pose proof (forallb_name_ok_noquote _ H) as HF. clear H.
+  induction HF as [|p l Hp _ IH]; [reflexivity|].
+  destruct l as [|y l]; [exact Hp|].
+  rewrite str_join_cons2, !contains_app, Hp, IH. reflexivity.
+Qed.
+
+(* the core lemma for qualified references *)
+Lemma strip_quotes_safename_q : forall s, qname_ok s = true -> strip_quotes (uvl_safename s) = s.
+Proof. intros s H. apply strip_quotes_safename_noquote. apply qname_ok_noquote. exact H. Qed.
+
+Lemma starts_with_app c a b : a <> "" -> starts_with_char c (a ++ b) = starts_with_char c a.
+Proof. destruct a as [|d a]; [intros H; elim H; reflexivity|reflexivity]. Qed.
+
+(* a qualified reference is never a string literal *)
+Lemma qname_ok_not_literal s : qname_ok s = true -> starts_with_char "'" s = false.
+Proof.
+  unfold qname_ok. intros H. rewrite <- (str_join_split "." s).
+  destruct (str_split "." s) as [|p l]; [reflexivity|].
+  cbn [forallb] in H. apply andb_true_iff in H. destruct H as [Hp _].
+  destruct (name_ok_parts p Hp) as (Hne & _ & _ & Hq).
+  destruct l as [|y l]; [exact Hq|].
+  rewrite str_join_cons2, (starts_with_app _ _ _ Hne). exact Hq.
+Qed.
+
+(* [qname_ok] widens [name_ok]: an undotted qualified name is a plain name, and conversely *)
+Lemma name_ok_qname_ok s : name_ok s = true -> qname_ok s = true.
+Proof.
+  intros H. destruct (name_ok_parts s H) as (_ & _ & Hd & _).
+  unfold qname_ok. rewrite (str_split_absent _ _ Hd). cbn [forallb]. rewrite H. reflexivity.
+Qed.
+
+Lemma qname_ok_undotted s : str_contains_char "." s = false -> qname_ok s = name_ok s.
+Proof.
+  intros Hd. unfold qname_ok. rewrite (str_split_absent _ _ Hd). cbn [forallb]. apply andb_true_r.
+Qed.
+
+(* every part of a qualified name is a plain name, and joining plain names gives a qualified name *)
+Lemma qname_ok_join : forall l, l <> [] -> forallb name_ok l = true -> qname_ok (str_join "." l) = true.
+Proof.
+  assert (G : forall l cur, l <> [] -> forallb name_ok l = true ->
+            forall p rest, l = p :: rest ->
+            str_split_aux "." (str_join "." l) cur = (str_rev cur ++ p)%string :: rest).
+  { induction l as [|x l IH]; intros cur Hne H p rest E; [elim Hne; reflexivity|].
+    injection E as -> ->. cbn [forallb] in H. apply andb_true_iff in H. destruct H as [Hp Hl].
+    destruct (name_ok_parts p Hp) as (_ & _ & Hd & _).
+    destruct rest as [|y rest].
+    - cbn [str_join]. apply str_split_aux_absent. exact Hd.
+    - rewrite str_join_cons2. clear Hp Hne. revert cur Hd. induction p as [|d p IHp]; intros cur Hd.
+      + cbn [append]. rewrite str_split_aux_eq. cbn [Ascii.eqb Bool.eqb].
+        rewrite (IH "" ltac:(discriminate) Hl y rest eq_refl), str_app_nil_r. reflexivity.
+      + rewrite contains_cons in Hd. apply orb_false_iff in Hd. destruct Hd as [Hd1 Hd2].
+        cbn [append]. rewrite str_split_aux_eq, Hd1, (IHp _ Hd2), str_rev_cons, str_app_assoc. reflexivity. }
+  intros l Hne H. unfold qname_ok, str_split. destruct l as [|p rest]; [elim Hne; reflexivity|].
+  rewrite (G _ "" Hne H p rest eq_refl). exact H.
+Qed.
+
 (* ---- decimal numbers *)
 Definition numchar (c : ascii) : bool := is_digit c || Ascii.eqb c "-".
 
@@ -289,10 +478,6 @@ Proof.
   destruct rest as [|d rest']; [reflexivity|].
   destruct d as [[] [] [] [] [] [] [] []]; reflexivity.
 Qed.
-
-Lemma contains_cons c d s :
-  str_contains_char c (String d s) = Ascii.eqb c d || str_contains_char c s.
-Proof. reflexivity. Qed.
 
 Lemma split_dotdot_none : forall s acc, str_contains_char "." s = false -> split_dotdot s acc = None.
 Proof.
@@ -911,21 +1096,20 @@ Lemma term_ok_read s : term_ok s = true ->
   uvl_read_ctc (if starts_with_char "'" s then KStr s else KLiteral (uvl_safename s)) = Ok (term s).
 Proof.
   unfold term_ok. intros H. destruct (starts_with_char "'" s) eqn:Hq; [reflexivity|].
-  rewrite orb_false_r in H. cbn [uvl_read_ctc]. rewrite (strip_safename _ H). reflexivity.
+  rewrite orb_false_r in H. cbn [uvl_read_ctc]. rewrite (strip_quotes_safename_q _ H). reflexivity.
 Qed.
 
-Lemma is_ref_inv a : is_ref a = true -> exists s, a = Node (DStr s) None None /\ name_ok s = true.
+Lemma is_ref_inv a : is_ref a = true -> exists s, a = Node (DStr s) None None /\ qname_ok s = true.
 Proof.
   destruct a as [[o|s|z|r|b] [l|] [r'|]]; cbn [is_ref]; try discriminate.
   intros H. exists s. split; [reflexivity|exact H].
 Qed.
 
-Lemma is_ref_arg a : is_ref a = true -> exists s, a = term s /\ name_ok s = true
+Lemma is_ref_arg a : is_ref a = true -> exists s, a = term s /\ qname_ok s = true
   /\ nc_arg (Some a) = Ok [uvl_safename s].
 Proof.
   intros H. destruct (is_ref_inv a H) as (s & -> & Hs). exists s. split; [reflexivity|].
-  split; [exact Hs|]. cbn [nc_arg]. destruct (name_ok_parts s Hs) as (_ & _ & _ & Hq). rewrite Hq.
-  reflexivity.
+  split; [exact Hs|]. cbn [nc_arg]. rewrite (qname_ok_not_literal s Hs). reflexivity.
 Qed.
 
 Definition CRT (n : node) : Prop :=
@@ -968,7 +1152,7 @@ Proof.
       destruct (is_ref_arg a Href) as (s & -> & Hs & Harg).
       destruct o; try discriminate; cbn [nc_op aggr_of]; unfold nc_aggr; rewrite Harg;
         (eexists; split; [reflexivity|]); cbn [nc_arg app uvl_read_ctc astop_of_aggr];
-        rewrite (strip_safename _ Hs); reflexivity.
+        rewrite (strip_quotes_safename_q _ Hs); reflexivity.
   - (* right operand only *)
     intros d b _ Hok. destruct d; discriminate.
   - (* both operands *)
@@ -980,7 +1164,7 @@ Proof.
       destruct (is_ref_arg b Hb) as (s2 & -> & Hs2 & Harg2).
       destruct o; try discriminate; cbn [nc_op aggr_of]; unfold nc_aggr; rewrite Harg, Harg2;
         (eexists; split; [reflexivity|]); cbn [app uvl_read_ctc astop_of_aggr];
-        rewrite (strip_safename _ Hs), (strip_safename _ Hs2); reflexivity.
+        rewrite (strip_quotes_safename_q _ Hs), (strip_quotes_safename_q _ Hs2); reflexivity.
     + apply andb_true_iff in Hok. destruct Hok as [Hok Hb].
       apply andb_true_iff in Hok. destruct Hok as [Hop Ha].
       destruct (IHa Ha) as (ca & Ha1 & Ha2). destruct (read_operand _ _ _ Ha1 Ha2) as (ca' & Ha1' & Ha2').
@@ -1524,14 +1708,14 @@ Proof. intros. rewrite !uvl_read_feature_eq. reflexivity. Qed.
    constructor-headed arguments *)
 Definition brief_step (rec : node -> bool) (n : node) : bool :=
   match n with
-  | Node (DStr s) None None => name_ok s || starts_with_char "'" s
+  | Node (DStr s) None None => qname_ok s || starts_with_char "'" s
   | Node (DInt _) None None => true
   | Node (DFloat r) None None => match float_text r with Some t => String.eqb t r | None => false end
   | Node (DOp NOT) (Some a) None => rec a
-  | Node (DOp o) (Some (Node (DStr a) None None)) None => op_in o [SUM; AVG; LEN; FLOOR; CEIL] && name_ok a
+  | Node (DOp o) (Some (Node (DStr a) None None)) None => op_in o [SUM; AVG; LEN; FLOOR; CEIL] && qname_ok a
   | Node (DOp o) (Some (Node (DStr a) None None)) (Some (Node (DStr b) None None)) =>
-      if op_in o [SUM; AVG] then name_ok a && name_ok b
-      else negb (op_in o [NOT; XOR; LEN; FLOOR; CEIL]) && (name_ok a || starts_with_char "'" a) && (name_ok b || starts_with_char "'" b)
+      if op_in o [SUM; AVG] then qname_ok a && qname_ok b
+      else negb (op_in o [NOT; XOR; LEN; FLOOR; CEIL]) && (qname_ok a || starts_with_char "'" a) && (qname_ok b || starts_with_char "'" b)
   | Node (DOp o) (Some a) (Some b) => negb (op_in o [NOT; XOR; SUM; AVG; LEN; FLOOR; CEIL]) && rec a && rec b
   | _ => false
   end.
@@ -1614,10 +1798,31 @@ Proof. vm_compute. eexists. split; reflexivity. Qed.
 Example ex_model_norm_ctcs :
   map c_name (ctcs (uvl_norm ex_model)) =
     ["Constraint 0"; "Constraint 1"; "Constraint 2"; "Constraint 3"; "Constraint 4"; "Constraint 5";
-     "Constraint 6"; "Constraint 7"]
+     "Constraint 6"; "Constraint 7"; "Constraint 8"; "Constraint 9"; "Constraint 10"; "Constraint 11"]
   /\ nth_error (map c_ast (ctcs (uvl_norm ex_model))) 1
      = Some (bin IMPLIES (term "C1") (un NOT (bin AND (term "D1") (un NOT (term "C 2"))))).
 Proof. vm_compute. split; reflexivity. Qed.
+(* the text of the qualified references: each part is quoted on its own *)
+Example ex_model_qualified_text :
+  match mapM (fun c => node_cst (c_ast c)) (skipn 8 (ctcs ex_model)) with
+  | Ok l => map render_cst l
+  | Err _ => []
+  end =
+  [ "Disk.""size in GB"" > 3";
+    """features"".""1st"" == 'lit'";
+    "avg(Root.""my attr"", A.""or"") <= sum(D2.x.""y z"")";
+    "Root.cost => !len(""C 2"".n)" ].
+Proof. vm_compute. reflexivity. Qed.
+(* what [qname_ok] accepts *)
+Example qname_ok_examples :
+  map qname_ok ["a"; "a.b"; "a b.c d"; "x.1st"; "features.abstract"; "a.b.c"; "a.b'";
+                ""; "a..b"; ".a"; "a."; "."; "'a.b"; "a.'b"; "a.b""c"]
+  = [true; true; true; true; true; true; true;
+     false; false; false; false; false; false; false; false].
+Proof. vm_compute. reflexivity. Qed.
+Example str_split_examples :
+  map (str_split ".") [""; "a."; ".a"; "a..b"; "a.b"] = [[""]; ["a"; ""]; [""; "a"]; ["a"; ""; "b"]; ["a"; "b"]].
+Proof. vm_compute. reflexivity. Qed.
 
 (* ------------------------------------------------------------------ assumptions *)
 Print Assumptions uvl_roundtrip_cst.
@@ -1640,3 +1845,9 @@ Print Assumptions read_explicit_boolean.
 Print Assumptions read_card_n.
 Print Assumptions ctc_ok_brief_eq.
 Print Assumptions ex_model_roundtrip.
+Print Assumptions strip_quotes_safename_q.
+Print Assumptions strip_quotes_safename_noquote.
+Print Assumptions str_join_split.
+Print Assumptions qname_ok_join.
+Print Assumptions name_ok_qname_ok.
+Print Assumptions qname_ok_not_literal.
